@@ -12,10 +12,12 @@
 //   * every byte string over a 16-symbol alphabet up to length L through to_float / to_double
 //     against strtof / strtod.
 #define VF_MAIN_TU
+#include "early.h"
 #include "verif.h"
 #include "alloc.h"
 #include "ref_num.h"
 #include "st_format.h"
+#include "early_battery.h"
 #include <cmath>
 #include <cfloat>
 #include <memory>
@@ -716,6 +718,7 @@ static void build(vf::Plan &plan, const vf::Opts &o)
                    std::string t = ftext(i, L);
                    return strf("text[%zu]=%s", t.size(), vf::vis(t).c_str());
                });
+    vf_early::add_stage(plan);
 }
 
 VF_MAIN("C13", build)
